@@ -279,7 +279,7 @@ func compare(sc *scenario, r *hsreal.Result) *diff {
 		return &diff{"BothAgree", "enc-flag", "enc", fmt.Sprintf("Encryption: client=%v server=%v (table: %s)", C.Enc, S.Enc, e.Enc)}
 	}
 	if C.Sid != S.Sid || C.Sid == "" {
-		return &diff{"BothAgree", "session-id", "both", fmt.Sprintf("SessionId: client=%q server=%q", C.Sid, S.Sid)}
+		return &diff{"BothAgree", "session-id", "none", fmt.Sprintf("SessionId: client=%q server=%q", C.Sid, S.Sid)}
 	}
 	if C.KeyHash != S.KeyHash {
 		return &diff{"BothAgree", "key", "enc", fmt.Sprintf("shared secret differs: client=%s server=%s", C.KeyHash, S.KeyHash)}
@@ -328,11 +328,11 @@ func compare(sc *scenario, r *hsreal.Result) *diff {
 		}
 	}
 	if !found {
-		return &diff{"FollowsTable", "not-a-model-outcome", "both", fmt.Sprintf("outcome auth=%v method=%s enc=%v is not a terminal state of the model", S.Auth, S.Method, encOn)}
+		return &diff{"FollowsTable", "not-a-model-outcome", field(), fmt.Sprintf("outcome auth=%v method=%s enc=%v is not a terminal state of the model", S.Auth, S.Method, encOn)}
 	}
 	// CanTalkBothWays
 	if !(C.AppAccepted && C.AppIntact && S.AppAccepted && S.AppIntact) {
-		return &diff{"CanTalkBothWays", "app-exchange", "both", fmt.Sprintf("application message exchange after the handshake: client accepted=%v intact=%v (%s), server accepted=%v intact=%v (%s)",
+		return &diff{"CanTalkBothWays", "app-exchange", "enc", fmt.Sprintf("application message exchange after the handshake: client accepted=%v intact=%v (%s), server accepted=%v intact=%v (%s)",
 			C.AppAccepted, C.AppIntact, C.AppErr, S.AppAccepted, S.AppIntact, S.AppErr)}
 	}
 	return nil
